@@ -188,6 +188,9 @@ SCENARIOS = {
     "same2": (["w /a"], [["g /a"], ["g /a"]], -1, None),
     "diff": (["w /a", "w /b"], [["g /a"], ["g /b"]], -1, None),
     "modify1": (["w /a", "g /a"], [["g /a"], ["m /a", "g /a"]], -1, None),
+    # the first load of /a overlaps a modification: the second getter starts after the modification and must not be
+    # handed the template the first one compiled from the old text
+    "modify-first": (["w /a"], [["g /a"], ["m /a", "g /a"]], -1, None),
     "broken1": (["wb /a"], [["g /a"], ["g /a"]], -1, None),
     "fix1": (["wb /a"], [["g /a"], ["m /a", "g /a"]], -1, None),
     "delete1": (["w /a", "g /a"], [["g /a"], ["d /a", "g /a"]], -1, None),
@@ -316,8 +319,12 @@ def run_schedule(name, strategy, line_level, res, rc):
             if uri in w.broken or uri in getattr(w, "deleted", set()):
                 continue
             try:
-                out = w.lookup.get_template(uri).render_unicode()
-                if out != "%s#%d" % (uri, v):
+                tq = w.lookup.get_template(uri)
+                out = tq.render_unicode()
+                if out != "%s#%d" % (uri, v) and getattr(w, "mtimes", {}).get((uri, v), 0) < tq.module._modified_time + 1:
+                    # read before the modification, stamped after it: inside the one-second slack of C14's rule
+                    res.count("quiescent_stale_within_compile_window")
+                elif out != "%s#%d" % (uri, v):
                     res.violate("stale-after-quiescence", "%s: afterwards get_template(%r) renders %r, file is at version %d" % (what, uri, out, v), replay_case=rc)
             except Exception as e:
                 res.violate("unusable-after-quiescence", "%s: afterwards get_template(%r) raised %r" % (what, uri, e), replay_case=rc)
